@@ -42,7 +42,7 @@ Qed.
    released code: the rests that fill the gap left by a voice that has ended are built by Event.silent(nexttime - now,
    inevent), which multiplies by that stretch a second time (the queue times already are in stretched time): voice 0
    (dur 1, 1; stretch 2) has its second event at its own time 2 but it is played at 3.  Repaired: at 2. *)
-Definition released_ppar : cfg := mkCfg true true true true true true true false.
+Definition released_ppar : cfg := mkCfg true true true true true true true false true.
 Definition stretch_witness : pat :=
   PPar [PBind [("instrument"%string, VRep (VSym "c14a")); ("pan"%string, VRep (VNum (I 0))); ("dur"%string, VSeq [VNum (I 1); VNum (I 1)])];
         PBind [("instrument"%string, VRep (VSym "c14a")); ("pan"%string, VRep (VNum (I 1))); ("dur"%string, VSeq [VNum (F (1 # 2))])]].
